@@ -150,6 +150,28 @@ def run_attrs(idx, rng, sh):
         sh.violation('C20:attributes differ (%s, pattern %s, several subsections=%s, several subsubsections=%s)' % (
             arch, pattern, shape[0], shape[1]), got=got if not isinstance(got, list) else got[:2], want=want[:2], le=le)
         return
+    # the same objects once more, after whatever the pattern did to them (walks given up half-way included): a walk of a
+    # subsection object starts over, and the counts and lists still tell the whole encoded tree
+    poison([st], rng)
+    subs2 = list(sec.iter_subsections())
+    for k, s in enumerate(subs2):
+        if rng.random() < 0.5:
+            first = next(iter(s.iter_subsubsections()), None)          # give up after the first one ...
+            if rng.random() < 0.5 and first is not None:
+                next(iter(first.iter_attributes()), None)
+        poison([st], rng)
+        again = [dig_ss(ss, [dig_attr(a) for a in P(ss.iter_attributes())]) for ss in P(s.iter_subsubsections())]   # ... and walk it all
+        if again != want[k][2] or s.num_subsubsections != len(want[k][2]) or len(s.subsubsections) != len(want[k][2]):
+            sh.violation('C20:a second walk of one subsection object differs from the encoded sub-subsections (%s, after pattern %s)' % (arch, pattern),
+                         got=again[:2], want=want[k][2][:2], num=s.num_subsubsections)
+            return
+        for j, ss in enumerate(s.subsubsections):
+            if ss.num_attributes != len(want[k][2][j][3]) + 1 or [dig_attr(a) for a in ss.attributes[1:]] != want[k][2][j][3]:
+                sh.violation('C20:attribute list of a sub-subsection object differs on the second visit (%s)' % arch, k=k, j=j)
+                return
+    if sec.num_subsections != len(want) or [(x['vendor_name'], x['length']) for x in sec.subsections] != [(w[0], w[1]) for w in want]:
+        sh.violation('C20:subsection list differs on the second visit (%s, after pattern %s)' % (arch, pattern))
+        return
     sh.held(('attrs', arch, le, pattern, shape, min(sum(len(x[3]) for s in tree for x in s[2]), 5)))
     sh.sample({'arch': arch, 'pattern': pattern, 'tree': want[:1]}, kind='attrs')
 
